@@ -315,6 +315,11 @@ def run(ctx):
                    "first guess = equilibrium-range U10 (peak method, going-to convention); balance, spectrum, dE/dt and the "
                    "iteration flag forwarded", ef.loc(), derived=str({kk: T.show(v, 60) for kk, v in m.items()}))
     ctx.absorb(it)
+    # ---- R11.7 bracket bookkeeping of the solver that drives the inversion
+    from ..pairs import paired_update_rule
+    paired_update_rule(ctx, "R11.7", p.get_function(WB + "solvers.numba_newton_raphson"), "root_bounds", "func_at_bounds",
+                       "iterates", "func_evals", "function", 4)
+    ctx.require_count("R11.7", 12)
     ctx.require_count("R11.1", 1)
     ctx.require_count("R11.2", 9)
     ctx.require_count("R11.3", 9)
